@@ -495,3 +495,26 @@ func (e *ExistsSubquery) Eval(ctx *Context, row Row) (any, error) {
 type NullSafeEquals struct{ comparison }
 
 func NewNullSafeEquals(l, r Expression) *NullSafeEquals { return &NullSafeEquals{newComparison(l, r)} }
+
+func (e *NullSafeEquals) Compare(ctx *Context, row Row) (int, error) {
+	left, right, err := e.evalLeftAndRight(ctx, row)
+	if err != nil {
+		return 0, err
+	}
+	if left == nil && right == nil {
+		return 0, nil
+	} else if left == nil {
+		return 0, nil // BUG: NULL <=> value compares equal
+	} else if right == nil {
+		return -1, nil
+	}
+	return 1, nil
+}
+
+func (e *NullSafeEquals) Eval(ctx *Context, row Row) (any, error) {
+	result, err := e.Compare(ctx, row)
+	if err != nil {
+		return nil, err
+	}
+	return result == 0, nil
+}
